@@ -50,7 +50,7 @@ def _has_id_intersection(parent: 'Task', children: Iterable['Task']):
     if len(new_tasks) == 0:
         return False
 
-    parent_tree_ids = set([t.id for t in parent_tree])
+    parent_tree_ids = set([t.id for t in parent_tree if not t._is_hidden_root()])
     new_task_ids = set([t.id for t in new_tasks])
     if len(new_task_ids) < len(new_tasks):
         return True
@@ -116,7 +116,7 @@ class _Repr:
 
     @staticmethod
     def __get_linked_task_id(task: 'Task', linked_task: 'Task'):
-        if linked_task is None or linked_task.id == EMPTY_TASK_ID:
+        if linked_task is None or linked_task._is_hidden_root():
             return ''
         external = linked_task.wbs != task.wbs
         return f"{linked_task.id}{'(external)' if external else ''}"
@@ -672,6 +672,9 @@ class Task:
         self.__spent = None
 
         self.__wbs: Optional['WBS'] = None
+        # True only for the hidden root task of a WBS. It is recognised by this mark, not by its id:
+        # an ordinary task may carry any id
+        self.__hidden_root = False
 
         self.__parent = None
         self.__children = []
@@ -694,6 +697,12 @@ class Task:
 
         for k, v in kwargs.items():
             self.__setattr__(k, v)
+
+    def _is_hidden_root(self) -> bool:
+        return self.__hidden_root
+
+    def _make_hidden_root(self):
+        self.__hidden_root = True
 
     def _raw_parent(self) -> Optional['Task']:
         return self.__parent
@@ -737,7 +746,7 @@ class Task:
     @property
     def parent(self) -> Optional['Task']:
         """Parent task"""
-        if self.__parent is None or self.__parent.id == EMPTY_TASK_ID:
+        if self.__parent is None or self.__parent.__hidden_root:
             return None
         return self.__parent
 
@@ -795,7 +804,7 @@ class Task:
 
     def __get_all_parents(self) -> List['Task']:
         def get_parent(t):
-            if t is not None and t.id != EMPTY_TASK_ID:
+            if t is not None and not t.__hidden_root:
                 yield t
                 yield from get_parent(t.parent)
 
